@@ -237,36 +237,50 @@ def time_index(ctx, F):
         le = any(x.name == 'to_le_bytes' for x in sl.calls)
         item = (width, src[0], 'le' if le else 'raw')
         (witems if c.name == 'write_all' else hashed).append(item)
-    ritems = []
-    for c in _dom_order(rd, [c for c in rd.calls() if c.name == 'read_exact']):
-        p = op_place(c.args[1])
-        roots = lib.root_of(rd, p.l) if p is not None else set()
-        width = None
-        for l in roots:
-            m = lib._ARR.search(rd.local_ty(l))
-            if m:
-                width = int(m.group(1))
-        # what is the buffer used for?
-        use = '?'
-        le = False
-        for bb, i, s in rd.stmts():
-            rv = s['rv']
-            if rv['k'] == 'agg' and rv.get('adt') == 'TimeIndexEntry':
-                for f, op in zip(rv['fields'], rv['ops']):
-                    sl = lib.slice_back(rd, [op], through_calls=True, at=(bb, i), stop_at_calls=('read_exact',))
-                    if roots & sl.locals:
-                        use = f
-                        le = any(x.name == 'from_le_bytes' for x in sl.calls)
-        if use == '?':
-            for cm in lib.comparisons(rd):
-                if (roots & cm.sa().locals) or (roots & cm.sb().locals):
-                    if any(k.get('name', '').endswith('TIME_INDEX_MAGIC') for k in cm.sa().consts + cm.sb().consts):
-                        use = 'MAGIC'
-            for cc in rd.calls():
-                if cc.name == 'from_le_bytes' and roots & lib.slice_back(rd, cc.args, through_calls=False, at=(cc.bb, None)).locals and use == '?':
-                    use = 'count'
-                    le = True
-        ritems.append((width, use, 'le' if le else 'raw'))
+    def item_of(rd, c):
+            p = op_place(c.args[1])
+            roots = lib.root_of(rd, p.l) if p is not None else set()
+            width = None
+            for l in roots:
+                m = lib._ARR.search(rd.local_ty(l))
+                if m:
+                    width = int(m.group(1))
+            # what is the buffer used for?
+            use = '?'
+            le = False
+            for bb, i, s in rd.stmts():
+                rv = s['rv']
+                if rv['k'] == 'agg' and rv.get('adt') == 'TimeIndexEntry':
+                    for f, op in zip(rv['fields'], rv['ops']):
+                        sl = lib.slice_back(rd, [op], through_calls=True, at=(bb, i), stop_at_calls=('read_exact',))
+                        if roots & sl.locals:
+                            use = f
+                            le = any(x.name == 'from_le_bytes' for x in sl.calls)
+            if use == '?':
+                for cm in lib.comparisons(rd):
+                    if (roots & cm.sa().locals) or (roots & cm.sb().locals):
+                        if any(k.get('name', '').endswith('TIME_INDEX_MAGIC') for k in cm.sa().consts + cm.sb().consts):
+                            use = 'MAGIC'
+                for cc in rd.calls():
+                    if cc.name == 'from_le_bytes' and roots & lib.slice_back(rd, cc.args, through_calls=False, at=(cc.bb, None)).locals and use == '?':
+                        use = 'count'
+                        le = True
+            return (width, use, 'le' if le else 'raw')
+
+    def read_items(fx, depth):
+        # read_exact calls in dominance order; a private helper that reads (`read_entry(reader)?`) contributes its items in place
+        evs = [c for c in fx.calls() if c.name == 'read_exact']
+        if depth > 0:
+            evs += [c for c in fx.calls() if c.local_callee in F.fns and not F.fns[c.local_callee].is_closure and any(x.name == 'read_exact' for x in F.fns[c.local_callee].calls())]
+        out = []
+        for c in _dom_order(fx, evs):
+            if c.name == 'read_exact':
+                out.append(item_of(fx, c))
+            else:
+                ctx.touch(F.fns[c.local_callee], 1)
+                out += read_items(F.fns[c.local_callee], depth - 1)
+        return out
+    ritems = read_items(rd, 1)
     ctx.evaluations += len(witems) + len(ritems) + len(hashed)
     ctx.floor('AGREE-C30c', len(witems), 4, 'items written by append_track')
     if witems == ritems:
